@@ -285,7 +285,9 @@ def tlc(module, cfg, *, spec_dir=SPEC, workers=None, env=None, simulate=None,
     elif re.search(r"Error: Postcondition \S+ .*is false", r.out, re.S) or "Error: The postcondition" in r.out:
         r.violation = "postcondition"
     elif r.rc != 0 or "Error:" in r.out:
-        r.error = "TLC failed rc=%s (%s %s):\n%s" % (r.rc, module, cfg, r.out[-3000:])
+        i = r.out.find("Error:")
+        first = r.out[i:i + 1500] if i >= 0 else ""
+        r.error = "TLC failed rc=%s (%s %s):\n%s\n[...]\n%s" % (r.rc, module, cfg, first, r.out[-1500:])
     return r
 
 
